@@ -68,6 +68,7 @@ def main(argv=None):
     prop = args.prop
     tier = args.tier if args.tier in ("quick", "thorough") else "quick"
     seed = int(os.environ.get("VERIF_SEED", "0") or 0)
+    os.environ["OASVERIF_TIER"] = tier
     t0 = time.time()
     from . import sx
     sx.assert_repo()
